@@ -1250,6 +1250,54 @@ fn handshake_checks(res: &mut CaseResult, world: &World, rng: &mut SimRng) -> Op
 			other => return Some(viol("C19", "self-connection-not-refused", format!("accepting our own Hand gave {:?}", other.map(|p| p.version)), replay)),
 		}
 	}
+	// ... and the same for a node that has dialled out often before: the nonces a node has used form a
+	// bounded ring (100 entries); whatever the ring has seen, the nonce of the connection that comes back
+	// to the node itself must be in it
+	// (the node's writer paces its messages 150 ms apart in real time; hook H8 switches that off)
+	grin_util::verif::set_pacing_off(true);
+	for dials in [100usize, 130] {
+		let hs = Arc::new(Handshake::new(genesis, P2PConfig::default()));
+		for _ in 0..dials {
+			let (mut w, mut r) = socket_pair();
+			let t = std::thread::spawn(move || {
+				let _ = w.set_read_timeout(Some(Duration::from_millis(3000)));
+				let hand: Result<Hand, _> = msg::read_message(&mut w, ProtocolVersion::local(), Type::Hand);
+				let shake = Shake {
+					version: ProtocolVersion::local(),
+					capabilities: Capabilities::default(),
+					genesis,
+					total_difficulty: Difficulty::from_num(5),
+					user_agent: "sim".into(),
+				};
+				let m = Msg::new(Type::Shake, shake, ProtocolVersion::local()).unwrap();
+				let mut bytes = vec![];
+				msg::write_message(&mut bytes, &m, Arc::new(Tracker::new())).unwrap();
+				let _ = w.write_all(&bytes);
+				hand.is_ok()
+			});
+			let ok = hs.initiate(Capabilities::default(), Difficulty::from_num(9), PeerAddr("127.0.0.1:5002".parse().unwrap()), &mut r).is_ok();
+			let _ = t.join();
+			if !ok {
+				return Some(viol("C19", "handshake-initiate-failed", format!("an outbound handshake of a node that dials out {} times failed", dials), replay));
+			}
+		}
+		let (mut a, mut b) = socket_pair();
+		let hs2 = hs.clone();
+		let t = std::thread::spawn(move || hs2.initiate(Capabilities::default(), Difficulty::from_num(9), PeerAddr("127.0.0.1:5003".parse().unwrap()), &mut a).is_ok());
+		let info = hs.accept(Capabilities::default(), Difficulty::from_num(9), &mut b);
+		drop(b);
+		let _ = t.join();
+		res.runs += 1;
+		res.fault("self_connection_after_many_dials");
+		match info {
+			Err(grin_p2p::Error::PeerWithSelf) => {}
+			other => {
+				grin_util::verif::set_pacing_off(false);
+				return Some(viol("C19", "self-connection-not-refused", format!("a node that had dialled out {} times before accepted its own Hand: {:?}", dials, other.map(|p| p.version)), replay));
+			}
+		}
+	}
+	grin_util::verif::set_pacing_off(false);
 	None
 }
 
